@@ -95,6 +95,7 @@ type Exec struct {
 	// (registries, lazily set markers) cannot leak from one path into another.
 	trackGlobals bool
 	touched      map[*ssa.Package]bool
+	pools        map[*value][]value // sync.Pool contents (param pool_reuse)
 	constCache         map[*ssa.Const]value
 	trace              bool
 	nextObjID          int
